@@ -8,6 +8,7 @@ from . import strings, mathlib
 
 def do_call(ex, node, st):
     f = node.func
+    here = getattr(ex, "pol_here", 0)
     # --- spec-only forms -------------------------------------------------------
     if isinstance(f, ast.Name):
         name = f.id
@@ -19,7 +20,12 @@ def do_call(ex, node, st):
             saved = ex.bound
             return ex.eval(node.args[0], ex.old_state)
         if name == "implies":
-            a = truth(ex.eval(node.args[0], st))
+            cur = getattr(ex, "pol", 0)
+            ex.pol = -cur
+            try:
+                a = truth(ex.eval(node.args[0], st))
+            finally:
+                ex.pol = cur
             b = truth(ex.eval(node.args[1], st))
             return vbool(implies(a, b))
         if name == "iff":
@@ -28,6 +34,7 @@ def do_call(ex, node, st):
             return vbool(a == b)
         if name in ex.ctx.reg.specfuncs and (ex.spec_mode or name in ex.ctx.reg.ghost_ok):
             args = [ex.eval(a, st) for a in node.args]
+            ex.call_pol = here
             return ex.ctx.reg.specfuncs[name](ex, st, *args)
     # --- method calls ------------------------------------------------------------
     if isinstance(f, ast.Attribute):
